@@ -1,3 +1,4 @@
+import PyseqmVerif.Properties.Census
 import PyseqmVerif.Proofs.ScfLemmas
 import PyseqmVerif.Proofs.SP2Lemmas
 import PyseqmVerif.Generated.Constants
